@@ -700,7 +700,7 @@ func init() {
 			v.Nontrivial = true
 			return v
 		},
-		Rule:        "sets of 1..3 executable processes (trivial start->end, one task, fork/join) + a dedicated catching process and/or a waiting process linked by 0..2 message flows (throw -> start event of a waiting process, throw -> catch event of a running process, throw -> catch event of a process that was never instantiated = no effect; the catch event carries the signalRef the wake-up needs; the throw sits behind a task answered only once the catch event listens) x subscription-window hook at probability 0/0.5/1 x wait histories {one, two sequential, three concurrent, expired then repeated}; after every answer the pending requests must equal the union of the single-process references, no set waiter may return true (nor a cease-process-set trace appear) while a started process has tokens, at the end every waiter returns true, later waits return true, exactly one cease-process-set trace, instantiations = executable + thrown; one process per case (a double close panics the program); distinct = descriptor hash, all non-trivial",
+		Rule:        "sets of 1..3 executable processes (trivial start->end, one task, fork/join) + a dedicated catching process and/or a waiting process linked by 0..2 message flows (throw -> start event of a waiting process, throw -> catch event of a running process, throw -> catch event of a process that was never instantiated = no effect; the catch event carries the signalRef the wake-up needs; the throw sits behind a task answered only once the catch event listens) x subscription-window hook at probability 0/0.5/1 x wait histories {one, two sequential, three concurrent, expired then repeated}; after every answer the pending requests must equal the union of the single-process references, no set waiter may return true (nor a cease-process-set trace appear) while a started process has tokens, at the end every waiter returns true, later waits return true, exactly one cease-process-set trace, instantiations = executable + thrown; one process per case (a double close panics the program); distinct = descriptor hash, all non-trivial; link kind fanstart (four parallel throw events towards the start event of one waiting process), option slice with spare capacity",
 		Assumptions: []string{"the statement does not say what a throw towards a not-yet-listening catch event must do: stepwise cases order the answers so that the catch event listens first"},
 	})
 }
